@@ -11,6 +11,24 @@ DEFAULT = ['core', 'block', 'routers', 'renege', 'renege_jockey', 'preempt', 'pr
            'prio_reroute', 'sched', 'sched_block']
 
 
+# feature combinations that no stock region of gen.py produces often; registered at run time under new names (gen.py itself
+# is not edited: gen.gen seeds its generator from the region NAME, so new names are independent streams)
+EXTRA_REGIONS = {
+    'x_dyn_preempt': dict(dyn=1.0, prio=1.0, preempt=1.0, multiclass=True, noblock=True),
+    'x_dyn_preempt_block': dict(dyn=1.0, prio=1.0, preempt=1.0, reroute=True, multiclass=True, block=0.6),
+    'x_routers_reroute': dict(routers=1.0, prio=1.0, preempt=1.0, reroute=True, multiclass=True, block=0.4),
+    'x_routers_sched': dict(routers=1.0, sched=1.0, schedpre=0.6, reroute=True, block=0.4),
+    'x_routers_renege': dict(routers=1.0, renege=1.0, block=0.4),
+    'x_slotted_block': dict(slotted=1.0, block=0.7),
+    'x_slotted_renege_dyn': dict(slotted=0.7, renege=1.0, dyn=1.0, multiclass=True, noblock=True),
+    'x_sched_dyn_renege': dict(sched=1.0, schedpre=0.5, dyn=1.0, renege=0.7, multiclass=True, block=0.3),
+    'x_sched_preempt': dict(sched=1.0, schedpre=0.5, reroute=True, prio=1.0, preempt=1.0, multiclass=True, block=0.3),
+    'x_everything': dict(prio=0.7, preempt=0.7, reroute=True, sched=0.5, schedpre=0.5, slotted=0.2, renege=0.6, dyn=0.5, routers=0.6, block=0.5,
+                         multiclass=True),
+}
+gen.REGIONS.update({k: v for k, v in EXTRA_REGIONS.items() if k not in gen.REGIONS})
+
+
 def driver():
     if os.environ.get('K2B_DRIVER'):
         framework.DRIVER = os.environ['K2B_DRIVER']
@@ -78,6 +96,8 @@ def sweep(regions, n=60, seed0=100000, frames=150, size='quick', verbose=True, s
                 continue
             r = engine_k2b.check_trace(tr, drv, max_frames=frames)
             coverage(tr, r['frames'], cov)
+            if r.get('exc'):
+                cov['exc:%s:%s->%s' % (r['exc']['py'][0], r['exc']['py'][1], r['exc']['model'])] += 1
             tot['runs'] += 1
             tot['frames'] += r['frames']
             tot['wrapups'] += r.get('wrapups', 0)
